@@ -318,7 +318,7 @@ class Scanner:
         s.round = self.round
         if kind in ("KRepr", "KAscii"):
             inner = expr[:-2] if expr.endswith(("!r", "!a")) else expr
-            if inner.startswith(("repr(", "ascii(")) and inner.endswith(")"):
+            if inner.startswith(("repr(", "ascii(", "literal_repr(")) and inner.endswith(")"):
                 inner = inner[inner.index("(") + 1:-1]
             if inner.startswith(("map(repr, ", "map(ascii, ")):
                 inner = None
@@ -626,7 +626,7 @@ class Scanner:
             a = flat(args[0])
             if a.o == CODE:
                 return code("repr of library text")
-            s = self.site(n, "repr(" + ast.unparse(n.args[0]) + ")", "KRepr", a.note or a.o)
+            s = self.site(n, "literal_repr(" + ast.unparse(n.args[0]) + ")", "KRepr", a.note or a.o)
             s.types = [{"TStrSub": "TStr", "TBytesSub": "TBytes", "TIntSub": "TInt"}.get(t, t) for t in s.types]
             return AV(QUOTED, lead=[s], trail=[s], note="literal_repr()")
         if isinstance(f, ast.Name) and f.id == "map" and len(n.args) == 2:
